@@ -3,6 +3,7 @@
  * holds after every history by induction; all loops have constant bounds (16 slots, 16 blocks, 64 bits).
  * The harness includes the real mzd.c (to reach its file-static cache) and links the real mmc.c. */
 #include <m4ri/mzd.c>
+#include <m4ri/graycode.h>
 #include "vp.h"
 
 extern mmb_t m4ri_mmc_cache[__M4RI_MMC_NBLOCKS];
@@ -253,7 +254,7 @@ void harness(void) {
   VP_IN(int, in_c);
   VP_IN(int, in_gi);
   VP_IN(int, in_gw);
-  VP_ASSUME(in_r >= 0 && in_r <= RMAX && in_c >= 0 && in_c <= CMAX);
+  in_r = RMAX, in_c = CMAX; /* dimensions enumerated per group (a symbolic memset length is intractable) */
   word *live = malloc(4 * sizeof(word));
   VP_ASSUME(live != NULL);
   live[1]  = 0x1234;
